@@ -439,11 +439,11 @@ std::string set_scale_recipe(PlanText &p, size_t eps, Rng &cfg, Rng &work, bool 
         unsigned gb = km.U < (uint64_t(1) << 36) ? 8 : 30;
         p.set("recipe", "walk " + std::to_string(n) + " " + std::to_string(seed) + " " + std::to_string(gb) + " 0 0");
         sig = "scale-walk+";
-    } else {                  // more than 2^24 keys on one line (single construction thread)
+    } else {                  // more than 2^24 keys in many short segments (a single segment spanning 2^24 positions is outside the
+                              // stated domain of float slopes; absolute positions above 2^24 are not)
         size_t n = (size_t) cfg.range(16900000, 17600000);
-        p.set("recipe", "linear " + std::to_string(n) + " " + std::to_string(seed) + " " + std::to_string(cfg.range(1, 60)) + " 0 0");
-        p.set("procs", 1); p.set("maxthreads", 1);
-        sig = "scale-linear16m+";
+        p.set("recipe", "walk " + std::to_string(n) + " " + std::to_string(seed) + " 8 0 0");
+        sig = "scale-walk16m+";
     }
     p.set("recipe_start", cfg.range(0, 100000));
     p.set("qmax", 150000);
